@@ -1,12 +1,14 @@
 import IbcVerif.Driver.WasmStore
 import IbcVerif.Driver.Localhost
 import IbcVerif.Driver.Attest
+import IbcVerif.Driver.Solo
 
 def main (args : List String) : IO UInt32 := do
   match args with
   | ["wasmstore"] => IbcVerif.Driver.WasmStore.main; return 0
   | ["localhost"] => IbcVerif.Driver.Localhost.main; return 0
   | ["attest"] => IbcVerif.Driver.Attest.main; return 0
+  | ["solo"] => IbcVerif.Driver.Solo.main; return 0
   | _ =>
     IO.eprintln "usage: lcmodel <engine>   (engines: wasmstore, localhost, attest, solo)"
     return 2
